@@ -1582,7 +1582,9 @@ def payload_phase(ctx: Ctx, n_cases: int) -> None:
         try:
             sp1 = read_real(text)
         except Exception as e:  # noqa
-            raise MachineryError(f"generated spec does not parse ({e}):\n{text}")
+            # a source the front end does not load is not a case of this property
+            run.count("front_end:rejected:" + reject_kind(e))
+            continue
         t1 = gio.RegexTable()
         rules1 = rules_json(sp1.grammar, t1)
         for r in rules1:
@@ -1611,9 +1613,9 @@ def payload_phase(ctx: Ctx, n_cases: int) -> None:
                 line += " := " + render_etoks(rt["gen"])
             model_lines.append(line)
         printed = repr(sp1.grammar)
-        if "\n".join(model_lines) != printed:
+        p_ok = "\n".join(model_lines) == printed
+        if not p_ok:
             ctx.corr_fail("payload_print", {"spec": text, "model": "\n".join(model_lines), "impl": printed})
-            continue
         for rt in a["texts"]:
             for t in rt["rhs"]:
                 if isinstance(t, list) and t[0] == "{c":
@@ -1630,8 +1632,15 @@ def payload_phase(ctx: Ctx, n_cases: int) -> None:
         c_read, c_norm, c_real = canon_rules(a["read"], t1.patterns), canon_rules(a["norm"], t1.patterns), canon_rules(rules2, t2.patterns)
         if c_read != c_norm:
             ctx.corr_fail("payload_theorem_instance", {"spec": text, "read": a["read"], "norm": a["norm"]})
-        if c_real != c_read:
+        if p_ok and c_real != c_read:
             ctx.corr_fail("payload_read", {"spec": text, "printed": printed, "model": c_read, "impl": c_real})
+        # the property on the real code, whatever the model says: generators and bound expressions survive
+        g1, g2 = generators_of(sp1.grammar), generators_of(sp2.grammar)
+        if g1 != g2:
+            run.report("C15/generator-changed", f"generators {g1} are re-read as {g2}", replay)
+        b1, b2 = bounds_constraints_of(sp1), bounds_constraints_of(sp2)
+        if b1 != b2:
+            run.report("C15/bounds-changed", f"computed repetition bounds {b1} are re-read as {b2}", replay)
         # the static bounds of the re-read repetitions (what parse / fuzz use)
         if grammar_canon(sp1.grammar) != grammar_canon(sp2.grammar):
             run.report("C15/language-changed", "the static repetition bounds / rule bodies change on print+read", replay)
@@ -1778,7 +1787,8 @@ def spec_phase(ctx: Ctx, n_cases: int, tmpdir: str) -> None:
         try:
             sp1 = read_real(text)
         except Exception as e:  # noqa
-            raise MachineryError(f"generated spec does not parse ({e}):\n{text}")
+            run.count("front_end:rejected:" + reject_kind(e))
+            continue
         if via_convert:
             fn = os.path.join(tmpdir, f"s{ci}.fan")
             with open(fn, "w", encoding="utf-8", errors="surrogatepass") as fh:
@@ -2338,9 +2348,9 @@ def main(tier: str) -> int:
         run.coverage["phase_s"] = {"nodes": round(t0 - run.t0, 1)}
         for name, fn in (("tokens", lambda: token_phase(ctx, 500 if quick else 5000)),
                          ("literals", lambda: literal_phase(ctx, 400 if quick else 6000)),
-                         ("regexes", lambda: regex_phase(ctx, 500 if quick else 6000)),
-                         ("selectors", lambda: selector_phase(ctx, 300 if quick else 4000)),
-                         ("payloads", lambda: payload_phase(ctx, 50 if quick else 700)),
+                         ("regexes", lambda: regex_phase(ctx, 500 if quick else 4000)),
+                         ("selectors", lambda: selector_phase(ctx, 300 if quick else 2500)),
+                         ("payloads", lambda: payload_phase(ctx, 50 if quick else 400)),
                          ("specs", lambda: spec_phase(ctx, 150 if quick else 1500, tmpdir)),
                          ("words", lambda: word_phase(ctx, 40 if quick else 400)),
                          ("constraints", lambda: constraint_phase(ctx, 120 if quick else 1500))):
